@@ -22,6 +22,9 @@ def queries(tier):
         if q.name not in names:
             qs.append(q)
     qs += handle_queries(tier)
+    qs += ep_handle_queries(tier)
+    qs.append(Query("refcnt-any-count", "c10/refcnt.c", env=["env_alloc.c", "env_misc.c", "env_sync.c", "env_libc.c"], defs={}, unwind=8, timeout=120, group="c10/refcnt.c",
+                    params={"kernel": "nni_refcnt_init/hold/rele", "initial_count": "1..1000 symbolic", "operations": "6 symbolic hold/release"}))
     # an operation pending on a dialer (nng_dial / nng_dialer_start_aio) must be completed when the dial ends with a close, cancel or stop result
     from props import C14, C02
     for q in C14.queries(tier) + C02.queries(tier):
@@ -29,6 +32,28 @@ def queries(tier):
             q.group = "~" + q.group
             if q.name not in set(x.name for x in qs):
                 qs.append(q)
+    return qs
+
+
+def ep_handle_queries(tier):
+    qs = []
+    HENV = ["env_alloc.c", "env_misc.c", "env_sync.c", "env_aio.c", "env_idmap.c", "env_libc.c"]
+    words = ["c", "fcr", "fcc", "hcr", "fhcrr", "cf", "ch", "fcfr", "fccf", "hcc", "ffcrc"]
+    if tier != "quick":
+        import itertools
+        words += ["".join(w) for n in (4, 5) for w in itertools.product("fhrc", repeat=n)]
+    seen = set()
+    for w in words:
+        if w in seen:
+            continue
+        seen.add(w)
+        for lst in (0, 1):
+            d = {"WORD": '"%s"' % w}
+            if lst:
+                d["LISTENER"] = 1
+            qs.append(Query("handle-%s-%s" % ("listener" if lst else "dialer", w), "c10/ep_handles.c", tus=["core/list.c", "core/options.c"], env=HENV, defs=d, unwind=12,
+                            timeout=300, group="c10/ep_handles.c#%d" % lst,
+                            params={"kernel": "nni_%s_find/hold/rele/close" % ("listener" if lst else "dialer"), "word": w, "looked_up_id": "any 32-bit value after every step"}))
     return qs
 
 
